@@ -4,7 +4,8 @@ import PcbV.Lemmas.Cassette
 
   Property theorems about `PcbV.Cassette`, the record-level model of devices/cassette.py with ALL
   repairs applied (`rel = true`: `_search` closes the stream when it runs off the tape end; `fixed = true`: `_flush_record_buffer` keeps a full last chunk for the
-  closing record; `skipBody = true`: `_search` plays past the records of a skipped file).  The bit
+  closing record; `skipBody = true`: `_search` plays past the records of a skipped file; `closeStream`/
+  `closeFile` = `closeStreamWith true`: `close` plays a file open for reading to its end).  The bit
   level (leader, sync, trailer, CAS bit packing, WAV pulses) is abstracted to "a tape is a list of
   records, a record a list of 256-byte blocks"; the CRC is a parameter (a block written verifies).
   Vocabulary (PcbV.Lemmas.Cassette): `TFile` = a file as it lies on tape, `encode` = its records,
@@ -65,8 +66,8 @@ theorem data_roundtrip (req types : Bytes) (pre : List TFile) (f : TFile) (post 
   refine ⟨afterOpen s (s.done ++ encode pre ++ [hdrRec f]) f post, _, ?_, rfl, hr, rfl, ?_, ?_, ?_⟩
   · simp [openInput, hs, hreq', hsearch]
   · simp [afterOpen, fileRecs, List.append_assoc]
-  · simp [closeFile, closeStream, afterOpen]
-  · simp [closeFile, closeStream, afterOpen]
+  · exact (drains_close _ post (drains_complete _ rfl) rfl rfl).1
+  · exact (drains_close _ post (drains_complete _ rfl) rfl rfl).2.1
 
 /-- A request that no file between the head and the end of the tape answers (a name that is not there,
     or a file that lies behind the head): Skipped for each file passed, Device Timeout — and afterwards
@@ -84,6 +85,46 @@ theorem failed_search_rewinds (req types : Bytes) (pre : List TFile) (s : St)
     rw [ha]; omega
   obtain ⟨s', h1, h2⟩ := search_fails req types pre hpre s _ hfuel ha
   exact ⟨s', by simp [openInput, hs, hreq', h1], h2⟩
+
+/-- Partial reads: let the search have found `g` (the state `afterOpen …`, whatever was before), and let the
+    program take ANY sequence of `read(n)` from it (INPUT$, LINE INPUT#, INPUT# — any amounts, also none)
+    and then CLOSE the file with the rest unread.  Then (repaired `close`, which plays the file to its
+    end) the head is exactly in front of what follows `g` on the tape, the stream is closed and its
+    buffer is empty — the hypotheses of `data_roundtrip` hold again, so the next file reads back intact
+    and nothing of `g`'s unread rest can appear in it. -/
+theorem partial_read_then_close (s : St) (d : Tape) (g : TFile) (post : Tape) (hg : g.wf)
+    (ns : List Nat) (s2 : St) (hr : reads (afterOpen s d g post) ns = .ok s2) :
+    (closeFile true s2).ahead = post ∧ (closeFile true s2).isOpen = false ∧
+    (closeFile true s2).buf = [] ∧ (closeFile true s2).last = s.last := by
+  obtain ⟨h1, h2, h3, h4⟩ := drains_reads ns _ s2 post (drains_afterOpen s d g post hg) hr
+  obtain ⟨c1, c2, c3, c4⟩ := drains_close s2 post h1 (by rw [h2]; rfl) (by rw [h3]; rfl)
+  exact ⟨c1, c2, c3, by rw [c4, h4]; rfl⟩
+
+/-- Whatever the history, CLOSE leaves no bytes in the record buffer, and `open_read` starts every file
+    with an empty buffer that is not marked complete (the two resets the buffer hygiene rests on). -/
+theorem buffer_reset (fixed : Bool) (s : St) :
+    (s.isOpen = true → (closeFile fixed s).buf = []) ∧
+    (∀ s' h, openRead s = .ok (s', h) → s'.buf = [] ∧ s'.complete = false) := by
+  constructor
+  · intro ho
+    have hb : ∀ (drain : Bool) (t : St), t.isOpen = true → (closeStreamWith drain fixed t).buf = [] := by
+      intro drain t h; simp [closeStreamWith, h]
+    have hwo : (write fixed s [0]).isOpen = s.isOpen := by
+      unfold write flush; split <;> rfl
+    unfold closeFile closeFileWith
+    split
+    · exact hb _ _ (by rw [hwo]; exact ho)
+    · exact hb _ _ ho
+  · intro s' h hopen
+    unfold openRead at hopen
+    cases hsc : scanHeader s.ahead with
+    | error e => rw [hsc] at hopen; simp at hopen
+    | ok v =>
+      obtain ⟨b, used, left⟩ := v
+      rw [hsc] at hopen
+      simp only [Except.ok.injEq, Prod.mk.injEq] at hopen
+      obtain ⟨rfl, _⟩ := hopen
+      exact ⟨rfl, rfl⟩
 
 /-- no_mixing, stated as independence: the bytes delivered for `f` are the same whatever other files
     precede it (and are skipped) and whatever follows it. -/
@@ -129,7 +170,7 @@ theorem tape_roundtrip (pre : List File) (f : File) (rest : List File) (req type
   have hokf : fileOk f := hok f (by simp)
   have hl1 := foldl_newLast_ok pre (0, 0, 0) hokpre hl0
   have hfld := annot1_fields (pre.foldl newLast (0, 0, 0)) f
-  have hcs : closeStream true s' = s' := by simp [closeStream, hclosed]
+  have hcs : closeStream true s' = s' := by simp [closeStream, closeStreamWith, hclosed]
   have hahead : (attach (closeStream true s').tape).ahead =
       encode (annot (0, 0, 0) pre) ++ (fileRecs (annot1 (pre.foldl newLast (0, 0, 0)) f) ++
         encode (annot (newLast (pre.foldl newLast (0, 0, 0)) f) rest)) := by
@@ -213,6 +254,35 @@ theorem timeout_counterexample :
     afterMiss false [fileOne 3, fileTwo] [79, 78, 69] [tD]
       = some ([⟨false, [79, 78, 69, 32, 32, 32, 32, 32], tD⟩, ⟨false, [84, 87, 79, 32, 32, 32, 32, 32], tD⟩],
               .error Gen.E.file_already_open) := by
+  decide +kernel
+
+/-- a full record of 255 bytes, then the 164 bytes of `fileTrap`: the closing record starts with 0xA5 -/
+def fileTrap2 : File := ⟨[79, 78, 69], tD, List.replicate 255 121 ++ fileTrap.content, 0, 0⟩
+
+/-- write the files, attach again, open ONE, read `n` bytes, CLOSE, then open `req` and read everything -/
+def afterPartial (drain : Bool) (fs : List File) (n : Nat) (req types : Bytes) : Option (List Msg × Bytes) :=
+  match writeFiles true (attach []) fs with
+  | .error _ => none
+  | .ok s =>
+    let r0 := openInput true true (attach (closeStream true s).tape) [79, 78, 69] types
+    match Cassette.read r0.2.1 (some n) with
+    | .error _ => none
+    | .ok (_, s1) =>
+      let r := openInput true true (closeFileWith drain true s1) req types
+      match r.2.2, Cassette.read r.2.1 none with
+      | .ok _, .ok (d, _) => some (r.1, d)
+      | _, _ => none
+
+/-- the repaired `close`: after 5 bytes of ONE, TWO is found and intact -/
+example : afterPartial true [fileTrap2, fileTwo] 5 [84, 87, 79] [tD]
+    = some ([⟨true, [84, 87, 79, 32, 32, 32, 32, 32], tD⟩], [88, 89]) := by decide +kernel
+
+/-- original `close` (head stays inside the partly read file): the closing record of ONE (165 bytes, count
+    byte 0xA5) is taken for the header of TWO and bytes of TWO's real header are delivered as its content. -/
+theorem close_counterexample :
+    afterPartial false [fileTrap2, fileTwo] 5 [84, 87, 79] [tD]
+      ≠ some ([⟨true, [84, 87, 79, 32, 32, 32, 32, 32], tD⟩], [88, 89]) ∧
+    (afterPartial false [fileTrap2, fileTwo] 5 [84, 87, 79] [tD]).map (fun r => r.2.length) = some 164 := by
   decide +kernel
 
 end PcbV.C29
